@@ -374,6 +374,16 @@ func biasedAst(rng *rand.Rand, cfg gen.Config) *gen.Node {
 			parts[0].Subs[0] = &gen.Node{Kind: gen.KDot}
 		}
 		for k := 2 + rng.Intn(2); k > 0; k-- {
+			if k == 1 && rng.Intn(2) == 0 {
+				// a landmark with an alternative that demands whitespace after its core
+				sp1 := func() *gen.Node {
+					return &gen.Node{Kind: gen.KQuant, Lo: 1, Hi: -1, Subs: []*gen.Node{{Kind: gen.KShort, Short: 's'}}}
+				}
+				parts = append(parts, &gen.Node{Kind: gen.KGroup, Subs: []*gen.Node{{Kind: gen.KAlt, Subs: []*gen.Node{
+					{Kind: gen.KSeq, Subs: []*gen.Node{sp1(), lit(w()), sp1()}}, lit(w()[:1])}}}})
+				parts = append(parts, cls())
+				continue
+			}
 			parts = append(parts, item())
 			if rng.Intn(3) == 0 {
 				parts = append(parts, &gen.Node{Kind: gen.KQuant, Lo: rng.Intn(2), Hi: -1, Subs: []*gen.Node{{Kind: gen.KShort, Short: 's'}}})
